@@ -279,6 +279,10 @@ def replay(binary, path, verbose=False, timeout=300):
 
 # ----------------------------------------------------------------- known findings
 
+MAX_REPORTED = 6   # violation classes written out per check run (the rest is counted)
+MAX_MINIMISED = 3
+
+
 def load_known():
     known, fixed = [], []
     p = os.path.join(VERIF, 'known_findings.txt')
@@ -416,6 +420,7 @@ def finish(prop, tier, seed, mode, pr, binary, th, lines, problems, known, t0):
         print('KNOWN-FINDING: property=%s rule=%s key=%s seen=%d first-seed=%d %s' % (prop, rule, key, d['n'], d['seed'], d['k']['text']))
     reported = []
     replay_stats = dict(replayed=0, reproduced=0, diverged=0)
+    min_reports = []
     if mine:
         os.makedirs(os.path.join(VERIF, 'replays'), exist_ok=True)
         seen_classes = set()
@@ -424,6 +429,8 @@ def finish(prop, tier, seed, mode, pr, binary, th, lines, problems, known, t0):
             if cls in seen_classes:
                 continue
             seen_classes.add(cls)
+            if len(seen_classes) > MAX_REPORTED:
+                continue
             rf = l.get('Replay')
             path = os.path.join(VERIF, 'replays', '%s-%s-%d.json' % (prop, v['Rule'], l['Seed']))
             if rf:
@@ -436,15 +443,21 @@ def finish(prop, tier, seed, mode, pr, binary, th, lines, problems, known, t0):
                     replay_stats['diverged'] += results.count('DIVERGED')
                     rf['Reproducible'] = results.count('REPRODUCED') == 2
                     json.dump(rf, open(path, 'w'), indent=1)
-                    if rf['Reproducible'] and pr.get('minimise', True):
+                    if rf['Reproducible'] and pr.get('minimise', True) and len(min_reports) < MAX_MINIMISED:
                         try:
                             import minimise
-                            minimise.minimise(binary, path, budget_s=60)
+                            mrep = minimise.minimise(binary, path, budget_s=int(os.environ.get('VERIF_MIN_BUDGET_S', '45')), env=goenv())
+                            min_reports.append(dict(seed=l['Seed'], rule=v['Rule'], **mrep))
+                            if mrep.get('ok'):
+                                print('  minimised: program size %s -> %s, schedule %s -> %s choices (%d candidate runs)' % (
+                                    mrep['program_size'][0], mrep['program_size'][1], mrep['trace_len'][0], mrep['trace_len'][1], mrep['runs']))
                         except Exception as e:
                             print('minimiser failed: %r' % (e,))
             print('VIOLATION property=%s replay=%s' % (prop, path))
             print('  rule=%s seed=%d: %s' % (v['Rule'], l['Seed'], v['Detail']))
             reported.append(dict(rule=v['Rule'], key=v.get('Key', ''), seed=l['Seed'], detail=v['Detail'], replay=path))
+    if mine and len(seen_classes) > MAX_REPORTED:
+        print('  (%d further violation classes of %s not written out: %s)' % (len(seen_classes) - MAX_REPORTED, prop, ', '.join('%s[%s]' % c for c in sorted(seen_classes)[:12])))
     wall = time.time() - t0
     samples = []
     for l in lines:
@@ -469,7 +482,7 @@ def finish(prop, tier, seed, mode, pr, binary, th, lines, problems, known, t0):
             unnamed_foreign_tasks=agg['unnamed'], distinct_schedules=agg['distinct_schedules'], strategies=agg['strategies'],
             faults_fired=agg['faults'], network=agg['net'], probes=agg['probes'], rules=agg['rules'],
             known_findings_seen={'%s/%s' % k: d['n'] for k, d in known_seen.items()},
-            other_property_notes=others, replay=replay_stats, problems=problems[:5], mode=mode, tree_hash=th,
+            other_property_notes=others, replay=replay_stats, minimisation=min_reports, problems=problems[:5], mode=mode, tree_hash=th,
             components_real=COMPONENTS_REAL, components_stub=COMPONENTS_STUB,
         ),
     )
